@@ -1,0 +1,49 @@
+//go:build verif
+
+package modzip
+
+// Contracts for the verification machinery in /verif (comment-only file;
+// excluded from every build without the "verif" tag).
+
+// name of a zip entry with the directory marker removed
+//@ spec func trimSlash(s string) string { ite(len(s) >= 1 && s[len(s)-1] == '/', s[:len(s)-1], s) }
+
+//@ func (CheckedFiles).Err
+//@   ensures result == nil ==> len(cf.Invalid) == 0 && cf.SizeError == nil && cf.NoModError == nil
+
+// addError
+//@ func CheckZip$1
+//@   ensures len(cf.Invalid) > 0
+//@   assigns cf.Invalid, allelems(FileError)
+
+//@ func (collisionChecker).check
+//@   assumed A-int (Tier B): case-fold collision bookkeeping; only its frame is used
+//@   assigns mapof(cc)
+
+//@ func splitCUEMod
+//@   assumed A-int: pure string splitting
+//@   pure
+
+// (P) C15: every entry name of an archive that passes the check is a safe
+// relative path (so extraction stays beneath the target directory)
+//@ func CheckZip
+//@   loop 0 invariant -1 <= rangeindex && rangeindex < len(z.File)
+//@   loop 0 invariant len(cf.Invalid) == 0 ==> forall k int :: 0 <= k && k <= rangeindex ==> module.safeRel(trimSlash(z.File[k].Name))
+//@   ensures result3 == nil ==> result0 != nil && forall k int :: 0 <= k && k < len(result0.File) ==> module.safeRel(trimSlash(result0.File[k].Name))
+//@   assigns heap
+
+// (P) C15: extraction creates files only at Join(dir, name) for a safe relative
+// entry name, with O_CREATE|O_EXCL (never follows or overwrites an existing
+// entry), creates directories only for the parent of such a path, copies at
+// most declared+1 bytes and fails when the limit is exhausted. The file-system
+// calls are ghost effects: their preconditions are obligations at the call sites.
+//@ func Unzip$1
+//@   assumed A-int: wraps the named result err in a zipError
+//@ func Unzip
+//@   may_panic
+//@   loop 0 invariant -1 <= rangeindex && rangeindex < len(z.File) && z != nil
+//@   loop 0 invariant forall k int :: 0 <= k && k < len(z.File) ==> module.safeRel(trimSlash(z.File[k].Name))
+//@   effect os.OpenFile#0 requires module.safeRel(name) && same(arg0, joinPath(dir, name)) && arg1 == os.O_WRONLY + os.O_CREATE + os.O_EXCL
+//@   effect os.MkdirAll#1 requires module.safeRel(name) && same(dst, joinPath(dir, name))
+//@   effect io.Copy#0 requires lr.N <= zf.UncompressedSize64 + 1
+//@   assigns heap
